@@ -218,6 +218,13 @@ func vfRPQSequence(res *vfRes, r *vfRand, win uint32, base uint32, nops int) (ma
 		if okq != okm || (okq && lq != lm) {
 			return maxGaps, fail("last", "getLastTSNReceived = %d,%v, model %d,%v", lq, okq, lm, okm)
 		}
+		// gap ack block offsets are 16 bits on the wire: an accepted TSN further than 65535 from the cumulative
+		// point cannot be reported truthfully by any SACK
+		for t := range m.set {
+			if t-m.cum > 65535 {
+				return maxGaps, fail("unreportable", "TSN %d was accepted %d ahead of the cumulative TSN %d (tracking window %d): no gap ack block can name it", t, t-m.cum, m.cum, win)
+			}
+		}
 		gq := q.getGapAckBlocks()
 		gm := m.gaps()
 		if len(gq) != len(gm) {
@@ -248,7 +255,7 @@ func vfRunRPQBatch(_ *testing.T, spec *vfSpec, res *vfRes) {
 	r := vfNewRand(spec.Seed)
 	n := int(spec.x("seqs", 200))
 	nops := int(spec.x("ops", 200))
-	bufs := []uint32{1024, 250000, 500000, 1000000, 1048576, 1500000, 2000000, 3000000, 4194304, 5000000, 8000000}
+	bufs := []uint32{1024, 250000, 500000, 1000000, 1048576, 1500000, 2000000, 3000000, 4194304, 5000000, 8000000, 16 << 20, 64 << 20, 1 << 30, 4294967295}
 	for i := 0; i < n; i++ {
 		var win uint32
 		if r.Intn(3) == 0 {
